@@ -162,6 +162,32 @@ DETECT.update({
     "C20-g": (["C20"], "MISSED", "needed the empty chain name in the message universe and repeats that are separately decoded copies"),
 })
 
+# ---- fourth round (one change per property, ids -h; prompt TEMPLATE4: interaction of two subsystems that are each
+# correct in isolation, or a specific history - something failed half-way earlier, written then deleted, second
+# occurrence) ----
+DETECT.update({
+    "C01-h": (["C01", "C05"], "DETECTED", "a refused block play has already dropped the conflicting pending transactions from the in-memory pool (their effects stay applied)"),
+    "C02-h": (["C02"], "DETECTED", "pool graph keeps one child edge per pending parent (same idea as C01-f / C02-f)"),
+    "C03-h": (["C03", "C01", "C05"], "DETECTED", "a refused block play no longer discards the cache view in which the conflicting pending transactions were already rolled back: a second spender is admitted"),
+    "C04-h": (["C04"], "DETECTED", "Truncate deletes the tx records of removed blocks although a surviving side block carries the transaction"),
+    "C05-h": (["C05"], "DETECTED", "ConfirmBlock resets its shared batch after a successful write only (a failed confirmation leaves residue for the next one)"),
+    "C06-h": ([], "MISSED", "NOT DETECTED, not built: Miner.Start gets a restart shortcut (ledger tip is an own block on top of the state tip: PlayForMiner instead of Walk), wrong after an interrupted truncation. C06 restarts a crash image with State.Walk to the ledger tip - the statement's own recovery step - not through the miner loop, and its histories mine with foreign proposer keys (blocks of the node's own address come from the real packBlock only in C13). Driving Miner.Start on every image plus own-address blocks in the C06 mix was not built in the time left"),
+    "C07-h": (["C07"], "MISSED", "needed a delivery HISTORY at the real entry point: the child overtakes its parent (verified, refused for lack of its input), the parent arrives, then another body arrives under the child's id (Chain.SubmitTx remembered the id as verified)"),
+    "C08-h": (["C08"], "DETECTED", "SavePendingBlock keeps an existing entry: a refused tampered copy shadows the genuine block of the same id (sync-path sub-check)"),
+    "C09-h": (["C09", "C01"], "DETECTED", "UndoTx leaves the delete marker when it undoes a delete of a live key (same idea as C01-a)"),
+    "C10-h": (["C01", "C02", "C03", "C18"], "MISSED by C10", "UndoTx removes the re-installed earlier delete marker when it undoes a second delete: an XModel defect below C10's backing reader; the node machines catch it (C01 at seeds 2 and 3, C02 / C03 / C18 at seed 1) because generated programs delete deleted keys and conflicting blocks evict them"),
+    "C11-h": (["C18"], "MISSED by C11", "same change as C18-g (queryTx asks the confirmed table first): the tip snapshot takes a pending ACL write for confirmed once a losing side block carries the transaction; C11's pipeline has no side blocks carrying pending rule changes, C18 catches the snapshot"),
+    "C12-h": (["C12"], "MISSED", "needed selections with excludeUnconfirmed (a third selector entry) and yield points inside SelectUtxos (hook e0cb9d0): the skipped-and-unlocked output is unlocked a second time when the selection gives up, dropping another selector's lock. Probabilistic in the quick tier (seeds 1 and 2 yes, 3 no)"),
+    "C13-h": (["C01"], "MISSED by C13", "UndoTx puts an earlier delete marker back only when the undone write was a delete: an XModel undo defect; C13's pools never hold re-write + second delete of a deleted key across a walk, C01 catches it"),
+    "C14-h": (["C14"], "MISSED", "needed the path block-known: the proposal is already a node of the pending tree (heard through a proposal message) when its certificate is checked"),
+    "C15-h": (["C15"], "DETECTED", "commit clean-up rebuilds the orphan map from the orphan heads only: a nested orphan delivered again is stored twice"),
+    "C16-h": (["C16"], "MISSED", "needed the pluggable-consensus layer: upgrade proposals executed through the registered kernel method, and the metamorphic oracle 'a proposal the method refused changes neither any verdict nor the running consensus'"),
+    "C17-h": (["C17"], "DETECTED", "multi-block walk publishes the in-memory meta once at the end: a walk refused half-way leaves the raised height on disk only"),
+    "C18-h": (["C18", "C05", "C06"], "DETECTED", "dependants rolled back by a block play keep their row in the unconfirmed table"),
+    "C19-h": (["C09"], "MISSED by C19", "verifyOutputs compares bucket+key without separator: needs a HAND-MADE read set (governance calls assembled by pre-execution are unaffected); C09 catches it with the mutant 'read entry moved across the bucket / key boundary' (added for this change) and through a regression witness"),
+    "C20-h": (["C20"], "MISSED", "needed handler subscribers that decode the request with p2p.Unmarshal like the engine's handlers (Decompress rewrote the shared message in place: the de-duplication key computed after the handlers differs from the one computed before)"),
+})
+
 
 def main():
     for sid in sorted(os.listdir(os.path.join(ROOT, "seeded"))):
